@@ -36,6 +36,8 @@ type BurstSpec struct {
 	Rounds int   `json:"rounds"`
 }
 
+var addrPause int32
+
 type burstRig struct {
 	entered int64
 	exited  int64
@@ -90,6 +92,21 @@ func runBurst(job *Job) (res Result) {
 	}
 	rnd := rand.New(rand.NewSource(f.Seed))
 	rounds, dialFailures := 0, 0
+	// other users of the listener keep its lock busy (Address() is what the admin API and the loggers
+	// call): a contended lock is released through its slow path, which keeps apart what a check-then-act
+	// addConn does in two critical sections - also on a machine too busy to run the handlers in parallel
+	var stopAddr int32
+	defer atomic.StoreInt32(&stopAddr, 1)
+	for k := 0; k < 2; k++ {
+		go func() {
+			for atomic.LoadInt32(&stopAddr) == 0 {
+				l.Address()
+				if atomic.LoadInt32(&addrPause) == 1 {
+					time.Sleep(500 * time.Microsecond)
+				}
+			}
+		}()
+	}
 	for ; rounds < f.Rounds && len(res.Findings) == 0; rounds++ {
 		B := f.MinB + rnd.Intn(f.MaxB-f.MinB+1)
 		enteredBefore := atomic.LoadInt64(&rig.entered)
@@ -122,11 +139,13 @@ func runBurst(job *Job) (res Result) {
 				}()
 			}(i)
 		}
+		atomic.StoreInt32(&addrPause, 0)
 		close(start)
 		wg.Wait()
 		settled := waitUntil(3*time.Second, func() bool {
 			return atomic.LoadInt64(&rig.entered)-enteredBefore+atomic.LoadInt64(&closedSeen)+atomic.LoadInt64(&failed) == int64(B)
 		})
+		atomic.StoreInt32(&addrPause, 1) // only the arrivals are contended, not the settling
 		arrived := B - int(atomic.LoadInt64(&failed))
 		dialFailures += B - arrived
 		servingNow := int(atomic.LoadInt64(&rig.serving))
@@ -209,7 +228,7 @@ func runBurst(job *Job) (res Result) {
 func burstJobs(thorough bool, seed int64, firstID int) []Job {
 	rounds, per := 1500, 2
 	if thorough {
-		rounds, per = 8000, 2
+		rounds, per = 3000, 2
 	}
 	var out []Job
 	for _, lim := range []int{1, 2, 3} {
